@@ -124,6 +124,8 @@ class Env:
                                     monitor=monitor)
         self.online_cpus = online_cpus or possible_cpus
         self.cpulist = cpulist or (f"0-{possible_cpus - 1}" if possible_cpus > 1 else "0")
+        self.cpulist_fault = None      # "unreadable" / "garbage": the possible-CPU file fails
+        self.affinity_cpus = 1         # CPUs this process may run on (<= online)
         self.bus = SimBus(self.world, ifname, faults=faults, kernel=self.kernel)
         self.buses = {ifname: self.bus}
         self.logcap = LogCapture(self.world)
@@ -198,10 +200,23 @@ class Env:
             def arraymap_open(path, *a, **kw):
                 if str(path) == "/sys/devices/system/cpu/possible":
                     import io
+                    if self.cpulist_fault == "unreadable":    # no sysfs (a container)
+                        self.world.count("fault/cpu-mask-file-unreadable")
+                        raise FileNotFoundError(2, "No such file or directory", str(path))
+                    if self.cpulist_fault == "garbage":
+                        self.world.count("fault/cpu-mask-file-unparsable")
+                        return io.StringIO("\n")
                     return io.StringIO(self.cpulist + "\n")
                 import builtins
                 return builtins.open(path, *a, **kw)
             p.set(arraymap, "open", arraymap_open)
+            # the process may be pinned to fewer CPUs than are online (taskset, cpuset):
+            # whatever asks the OS for that gets the simulated answer
+            for name in ("sched_getaffinity", "process_cpu_count"):
+                if hasattr(arraymap, name):
+                    p.set(arraymap, name,
+                          (lambda pid=0: set(range(self.affinity_cpus)))
+                          if name == "sched_getaffinity" else (lambda: self.affinity_cpus))
             if self.monitor is not None:
                 self.monitor.install(p, bpf)
         if self.sched is not None:
